@@ -16,7 +16,7 @@ RULE = ('Loop trees are obtained with the real X12ContextReader from generated d
         'Segment/Composite/Element or child list shared. non-trivial = distinct histories with >=1 mutating call.')
 ASSUMPTIONS = ['qualified paths are generated only for segments whose map node has a first-element ID qualifier list (elsewhere the qualifier is ignored by design)',
                'values written contain no delimiter characters; the link from a copy\'s root to its enclosing context is not counted as shared mutable data']
-REQUIRED_COUNTERS = ['histories', 'ops:get', 'ops:set', 'ops:count', 'ops:add_segment', 'ops:add_loop', 'ops:delete_segment', 'ops:delete_node', 'ops:copy', 'ops:add_node',
+REQUIRED_COUNTERS = ['ops:from-below', 'ops:from-below:depth-2', 'histories', 'ops:get', 'ops:set', 'ops:count', 'ops:add_segment', 'ops:add_loop', 'ops:delete_segment', 'ops:delete_node', 'ops:copy', 'ops:add_node',
                      'ops:garbage', 'serialisations-compared', 'copy:parent-path-edits']
 MIN_CASES = {'quick': 1200, 'thorough': 40000}
 WATCHDOG_S = {'quick': 1200, 'thorough': 7200}
@@ -411,6 +411,52 @@ class History(object):
                 self.viol('query:select-content', 'select returned other nodes than the model', {'path': path})
                 return
 
+    def op_from_below(self):
+        """the same query asked from a nested loop node with as many '../' steps as that node is deep must give what the root gives for the plain path
+        (get_value, exists, count, select, first); one step too many must raise X12PathError"""
+        lp = [x for x in loop_paths(self.model) if len(x[0]) >= 1]
+        if not lp:
+            return
+        p0, m0 = self.rng.choice(lp)
+        try:
+            below = self.real.first('/'.join(p0))
+        except Exception as ex:
+            self.viol('query:%s' % exc_key(ex), 'first raised on a well-formed relative path', {'exc': repr(ex)[:200], 'path': '/'.join(p0)})
+            return
+        if below is None:
+            return
+        sp = self.pick_seg_path()
+        if sp is None:
+            return
+        p, sid, qual = sp
+        e = self.rng.choice([1, 2, 3])
+        ups = '../' * len(p0)
+        path = self.path_text(p, sid, qual)
+        self.ops.append(('from-below', '/'.join(p0), ups + path))
+        self.ctx.count('ops:from-below')
+        self.ctx.count('ops:from-below:depth-%d' % min(len(p0), 3))
+        import pyx12.errors
+        try:
+            want = (self.real.get_value(path + '%02d' % e), self.real.exists(path), self.real.count(path), [id(x) for x in self.real.select(path)], id(self.real.first(path)))
+            got = (below.get_value(ups + path + '%02d' % e), below.exists(ups + path), below.count(ups + path), [id(x) for x in below.select(ups + path)], id(below.first(ups + path)))
+        except Exception as ex:
+            self.viol('from-below:%s' % exc_key(ex), "a path with leading '../' steps raised although it stays inside the tree", {'exc': repr(ex)[:200], 'from': '/'.join(p0), 'path': ups + path})
+            return
+        if got != want:
+            names = ['get_value', 'exists', 'count', 'select', 'first']
+            bad = [n for n, a, b in zip(names, got, want) if a != b]
+            self.viol('from-below:differs:%s' % ','.join(bad), "a query through '../' steps from a nested node differs from the same query asked at the root",
+                      {'from': '/'.join(p0), 'path': ups + path, 'depth': len(p0), 'got': repr(got)[:200], 'expected': repr(want)[:200]})
+            return
+        try:
+            below.exists('../' + ups + path)
+        except pyx12.errors.X12PathError:
+            pass
+        except Exception as ex:
+            self.viol('from-below:above-root:%s' % exc_key(ex), "climbing above the root of the tree raised something other than X12PathError", {'exc': repr(ex)[:200]})
+        else:
+            self.viol('from-below:above-root:accepted', "a path that climbs above the root of the tree was accepted", {'from': '/'.join(p0), 'path': '../' + ups + path})
+
     def make_segment(self, segnode):
         vals = self.gen.seg_values(segnode)
         if vals is None:
@@ -746,7 +792,7 @@ class History(object):
         if not self.compare():
             return
         ops = [self.op_get, self.op_get, self.op_set, self.op_set, self.op_query, self.op_query, self.op_add_segment, self.op_add_segment, self.op_add_loop,
-               self.op_delete_segment, self.op_delete_node, self.op_garbage, self.op_copy, self.op_add_node]
+               self.op_delete_segment, self.op_delete_node, self.op_garbage, self.op_copy, self.op_add_node, self.op_from_below, self.op_from_below]
         for _ in range(n):
             self.rng.choice(ops)()
             if self.failed:
